@@ -28,30 +28,32 @@ import (
 
 // Scenario is one point of the scenario space.
 type Scenario struct {
-	ID        int      `json:"id"`
-	In        int      `json:"in"`      // inbound backlog (lines) pending when the cause strikes
-	Segs      int      `json:"segs"`    // number of read chunks the backlog arrives in
-	Out       int      `json:"out"`     // outbound lines produced while the server is not reading
-	OutBy     string   `json:"out_by"`  // handler | user | none
-	Handler   string   `json:"handler"` // idle | running | sending
-	Causes    []string `json:"causes"`  // close, close2, close3, eof, readerr, writeerr, cancel
-	Flood     bool     `json:"flood"`   // flood control active (Config.Flood == false)
-	Tracking  bool     `json:"tracking"`
-	Ping      bool     `json:"ping"`
-	CtxDial   bool     `json:"ctx_dial"`
-	Reconnect string   `json:"reconnect"` // none | handler | other
-	Cycles    int      `json:"cycles"`
-	ConnectUp bool     `json:"connect_while_up"` // call Connect while connected (must be refused, harmlessly)
-	Storm     bool     `json:"storm"`            // many quick cycles of coinciding causes (no settle time between them)
-	Calls     string   `json:"calls"`            // what the handlers call while the disconnect is in progress: "" | me | connected
-	FailFirst string   `json:"fail_first"`       // "" | dial | tls: a Connect that fails (dial error, TLS handshake failure) precedes the session
-	BgDisc    bool     `json:"bg_disc"`          // a background DISCONNECTED handler that keeps running until the scenario is over
-	DiscClose bool     `json:"disc_close"`       // the DISCONNECTED handler calls Close(): the client is not connected, it must do nothing (and return)
+	ID           int      `json:"id"`
+	In           int      `json:"in"`      // inbound backlog (lines) pending when the cause strikes
+	Segs         int      `json:"segs"`    // number of read chunks the backlog arrives in
+	Out          int      `json:"out"`     // outbound lines produced while the server is not reading
+	OutBy        string   `json:"out_by"`  // handler | user | none
+	Handler      string   `json:"handler"` // idle | running | sending
+	Causes       []string `json:"causes"`  // close, close2, close3, eof, readerr, writeerr, cancel
+	Flood        bool     `json:"flood"`   // flood control active (Config.Flood == false)
+	Tracking     bool     `json:"tracking"`
+	Ping         bool     `json:"ping"`
+	CtxDial      bool     `json:"ctx_dial"`
+	Reconnect    string   `json:"reconnect"` // none | handler | other
+	Cycles       int      `json:"cycles"`
+	ConnectUp    bool     `json:"connect_while_up"` // call Connect while connected (must be refused, harmlessly)
+	Storm        bool     `json:"storm"`            // many quick cycles of coinciding causes (no settle time between them)
+	Calls        string   `json:"calls"`            // what the handlers call while the disconnect is in progress: "" | me | connected
+	FailFirst    string   `json:"fail_first"`       // "" | dial | tls: a Connect that fails (dial error, TLS handshake failure) precedes the session
+	CancelAtDial bool     `json:"cancel_at_dial"`   // the context of ConnectContext is cancelled the moment the dial completes
+	Eager        bool     `json:"eager"`            // reconnect "other" does not wait for DISCONNECTED: Connect is called as soon as Connected() is false
+	BgDisc       bool     `json:"bg_disc"`          // a background DISCONNECTED handler that keeps running until the scenario is over
+	DiscClose    bool     `json:"disc_close"`       // the DISCONNECTED handler calls Close(): the client is not connected, it must do nothing (and return)
 }
 
 func (s Scenario) Key() string {
 	return fmt.Sprintf("in=%s out=%s/%s handler=%s causes=%s flood=%v reconnect=%s up=%v calls=%s",
-		backlogClass(s.In), backlogClass(s.Out), s.OutBy, s.Handler, strings.Join(s.Causes, "+"), s.Flood, s.Reconnect, s.ConnectUp, s.Calls) + map[bool]string{true: " storm", false: ""}[s.Storm] + map[bool]string{true: " disc-close", false: ""}[s.DiscClose] + map[bool]string{true: " lingering-bg-DISCONNECTED", false: ""}[s.BgDisc] + map[bool]string{true: " after-failed-" + s.FailFirst, false: ""}[s.FailFirst != ""]
+		backlogClass(s.In), backlogClass(s.Out), s.OutBy, s.Handler, strings.Join(s.Causes, "+"), s.Flood, s.Reconnect, s.ConnectUp, s.Calls) + map[bool]string{true: " storm", false: ""}[s.Storm] + map[bool]string{true: " disc-close", false: ""}[s.DiscClose] + map[bool]string{true: " lingering-bg-DISCONNECTED", false: ""}[s.BgDisc] + map[bool]string{true: " cancel-at-dial", false: ""}[s.CancelAtDial] + map[bool]string{true: " eager-reconnect", false: ""}[s.Eager] + map[bool]string{true: " after-failed-" + s.FailFirst, false: ""}[s.FailFirst != ""]
 }
 
 var qcap = 32
@@ -263,6 +265,126 @@ func (r *runner) failedConnect() bool {
 	return len(r.res.Problems) == 0
 }
 
+// cancelAtDial: the context is cancelled while Connect is between the dial and its return.  Whatever
+// Connect answers must be the truth: nil - REGISTER was dispatched once and the connection then ends with
+// one DISCONNECTED (the context is done); an error - no event ever, not connected.
+func (r *runner) cancelAtDial() {
+	s := r.s
+	s.Net.OnDial = func(string) (*fakenet.Conn, error) {
+		r.cancel()
+		return fakenet.NewConn(), nil
+	}
+	err := r.connect()
+	s.Net.OnDial = nil
+	if err == nil {
+		if n := atomic.LoadInt32(&r.reg); n != 1 {
+			r.problem("C06", "register-count", fmt.Sprintf("Connect returned nil, REGISTER was dispatched %d times before it returned", n))
+		}
+		select {
+		case <-r.discCh:
+		case <-time.After(r.deadline):
+			r.problem("C07", "disconnect-never-completes", "the context was cancelled during Connect, Connect returned nil, but the connection was never torn down")
+		}
+	} else {
+		time.Sleep(150 * time.Millisecond)
+		if n, d := atomic.LoadInt32(&r.reg), atomic.LoadInt32(&r.disc); n != 0 || d != 0 {
+			r.problem("C06", "failed-connect-fired-event", fmt.Sprintf("Connect returned %q but REGISTER was dispatched %d times and DISCONNECTED %d times", err.Error(), n, d))
+		}
+	}
+	time.Sleep(20 * time.Millisecond)
+	if s.C.Connected() {
+		r.problem("C06", "connected-after-disconnect", "Connected() is true although the context given to Connect is done (Connect returned "+fmt.Sprint(err)+")")
+	}
+	if d := atomic.LoadInt32(&r.disc); d > 1 {
+		r.problem("C06", "disconnected-count", fmt.Sprintf("DISCONNECTED dispatched %d times", d))
+	}
+}
+
+// eagerReconnect: while connection 1 is being torn down behind a slow foreground handler, another goroutine
+// calls Connect as soon as Connected() is false.  Close must return, DISCONNECTED must be delivered once,
+// and the second connection must register and carry what is sent on it.
+func (r *runner) eagerReconnect(rng *rand.Rand) {
+	s := r.s
+	if err := r.connect(); err != nil {
+		r.res.Skipped = "connect failed: " + err.Error()
+		return
+	}
+	if !s.Welcome("me", r.deadline) {
+		r.res.Skipped = "no welcome"
+		return
+	}
+	entered := make(chan struct{})
+	var once sync.Once
+	s.C.HandleFunc("SLOW", func(c *client.Conn, l *client.Line) {
+		once.Do(func() { close(entered) })
+		time.Sleep(time.Duration(20+rng.Intn(40)) * time.Millisecond)
+	})
+	s.Srv.SendLines("SLOW")
+	select {
+	case <-entered:
+	case <-time.After(r.deadline):
+		r.res.Skipped = "SLOW handler not reached"
+		return
+	}
+	closed := make(chan struct{})
+	if contains(r.sc.Causes, "eof") {
+		s.Srv.EOF()
+		close(closed)
+	} else {
+		go func() { s.C.Close(); close(closed) }()
+	}
+	for t0 := time.Now(); s.C.Connected() && time.Since(t0) < r.deadline; {
+		time.Sleep(100 * time.Microsecond)
+	}
+	cerr := make(chan error, 1)
+	go func() { cerr <- r.connect() }()
+	select {
+	case err := <-cerr:
+		if err != nil {
+			r.problem("C07", "reconnect-failed", "Connect issued during the teardown returned "+err.Error())
+			return
+		}
+	case <-time.After(r.deadline):
+		r.problem("C07", "reconnect-hung", "Connect issued during the teardown did not return: "+shortStacks(sess.LibGoroutines()))
+		return
+	}
+	s.LatestSrv()
+	for _, what := range []string{"Close", "DISCONNECTED"} {
+		var ch <-chan struct{} = closed
+		if what == "DISCONNECTED" {
+			ch = r.discCh
+		}
+		select {
+		case <-ch:
+		case <-time.After(r.deadline):
+			r.problem("C07", "disconnect-never-completes", what+" of the first connection outstanding although a second connection has long been established: "+shortStacks(internalGoroutines()))
+			return
+		}
+	}
+	if !s.Welcome("me", r.deadline) {
+		r.problem("C07", "fresh-connection-dead", "the connection made during the teardown does not register / answer PING")
+		return
+	}
+	for i := 0; i < 40; i++ {
+		s.C.Raw(fmt.Sprintf("PRIVMSG #x :second connection line %d", i))
+	}
+	if _, ok := s.Srv.WaitLine("PRIVMSG #x :second connection line 39", 0, r.deadline); !ok {
+		l, _ := s.Srv.Lines()
+		r.problem("C07", "fresh-connection-not-fresh", fmt.Sprintf("lines sent on the second connection did not reach the server (it has %d lines)", len(l)))
+	}
+	if d := atomic.LoadInt32(&r.disc); d != 1 {
+		r.problem("C06", "disconnected-count", fmt.Sprintf("DISCONNECTED dispatched %d times for the first connection", d))
+	}
+	// leave nothing behind for the next scenario
+	go s.C.Close()
+	select {
+	case <-r.discCh:
+	case <-time.After(r.deadline):
+		r.problem("C07", "disconnect-never-completes", "Close of the second connection: no DISCONNECTED")
+	}
+	waitNoInternal(500 * time.Millisecond)
+}
+
 func contains(l []string, x string) bool {
 	for _, y := range l {
 		if y == x {
@@ -321,7 +443,7 @@ func Run(sc Scenario, seed int64) *Result {
 		r.returned = r.returned[:0]
 		r.umu.Unlock()
 		n := atomic.AddInt32(&r.disc, 1)
-		if up {
+		if up && !sc.Eager { // (with an eager reconnect the next connection may already be up: the user's own doing)
 			r.problem("C06", "connected-true-in-DISCONNECTED", "Connected() was true when the DISCONNECTED handler started")
 		}
 		r.event(fmt.Sprintf("DISCONNECTED #%d", n))
@@ -367,6 +489,14 @@ func Run(sc Scenario, seed int64) *Result {
 	})
 
 	if sc.FailFirst != "" && !r.failedConnect() {
+		return res
+	}
+	if sc.CancelAtDial {
+		r.cancelAtDial()
+		return res
+	}
+	if sc.Eager {
+		r.eagerReconnect(rng)
 		return res
 	}
 	if err := r.connect(); err != nil {
@@ -796,6 +926,11 @@ func Families(tier string, rng *rand.Rand) []Scenario {
 	add(Scenario{Causes: []string{"bgclose"}, Reconnect: "other", Cycles: 2})
 	add(Scenario{Causes: []string{"close"}, BgDisc: true, Reconnect: "other", Cycles: 2})
 	add(Scenario{Causes: []string{"eof"}, BgDisc: true, Reconnect: "handler", Cycles: 3, In: 5})
+	// the context is cancelled while Connect is in progress; a Connect issued while the teardown is still waiting
+	add(Scenario{Causes: []string{"cancel"}, CtxDial: true, CancelAtDial: true})
+	add(Scenario{Causes: []string{"cancel"}, CtxDial: true, CancelAtDial: true, Tracking: true, Ping: true})
+	add(Scenario{Causes: []string{"close"}, Eager: true})
+	add(Scenario{Causes: []string{"eof"}, Eager: true, Tracking: true})
 	// a Connect that fails (refused dial, failed TLS handshake) before the session proper
 	for _, ff := range []string{"dial", "tls"} {
 		add(Scenario{Causes: []string{"close"}, In: 3, FailFirst: ff})
@@ -900,7 +1035,7 @@ func RunLife(args []string) int {
 		// ConnTrace.tla follows user senders within one connection; a user goroutine that keeps
 		// sending across a reconnect, and a Close issued from inside the DISCONNECTED handler, are
 		// checked by the scenario's own oracle only
-		traced := tr != nil && !(sc.OutBy == "user" && sc.Reconnect != "none" && sc.Reconnect != "") && !sc.DiscClose && sc.FailFirst == "" && !contains(sc.Causes, "bgclose") && !sc.BgDisc
+		traced := tr != nil && !(sc.OutBy == "user" && sc.Reconnect != "none" && sc.Reconnect != "") && !sc.DiscClose && sc.FailFirst == "" && !contains(sc.Causes, "bgclose") && !sc.BgDisc && !sc.CancelAtDial && !sc.Eager
 		if traced {
 			tr.Reset(qcap, sc.Ping)
 		}
